@@ -121,3 +121,25 @@ Example T_C06_timestamp_layout_refuted :
   ts_of_payload (wr_ts_payload (-1) 5) <> Some ((-1)%Z, 5).
 Proof. exact wr_ts_96_refuted. Qed.
 Print Assumptions T_C06_timestamp_layout_refuted.
+
+(* ---- typed level: the write scopes (root / array / object / binary) driven by the generic layer ---- *)
+From BS Require Import MpSaveModel MpSave.
+
+(* every saved value tree (scalars of every C++ integer type, floats, strings, byte containers, nested
+   sequences, classes / maps) is exactly ONE well-formed MessagePack object from which the reference
+   decoder recovers the denoted data: types, values, element order, array/map headers equal to the number
+   of entries written, bin for byte containers; nothing is left over *)
+Theorem T_C06_one_wellformed_object : forall v b, wf_tv v -> save v = Some b -> decode b = Some (abs v, []).
+Proof. exact save_decodes. Qed.
+Print Assumptions T_C06_one_wellformed_object.
+
+(* the same inside any buffer and for any sufficient fuel (compositionality) *)
+Theorem T_C06_saved_value_in_context : forall v, wf_tv v -> forall b, save v = Some b ->
+  forall rest f, (length b <= f)%nat -> decode_ref (S f) (b ++ rest) = Some (abs v, rest).
+Proof. exact save_decodes_fuel. Qed.
+Print Assumptions T_C06_saved_value_in_context.
+
+Example T_C06_bytes_in_array_are_bin :
+  save (TArr [TBytes [1; 2]; TBytes [0x90]]) = Some [0x92; 0xC4; 2; 1; 2; 0xC4; 1; 0x90].
+Proof. exact save_bytes_in_array. Qed.
+Print Assumptions T_C06_bytes_in_array_are_bin.
